@@ -159,9 +159,15 @@ impl<'a> G<'a> {
                         self.push(Op::ab(OpK::SliceReplace, a, b));
                     }
                     5 => {
-                        let f = self.fault(self.n * self.w);
                         let a = self.r.below(4);
-                        self.push(Op::abf(OpK::VObserve, a, 0, f));
+                        if (a == 0 || a == 3) && self.faulty && self.faults_left > 0 && self.r.chance(1, 3) {
+                            self.faults_left -= 1;
+                            let b = self.r.range(1, 3 * (self.n * self.w) as u32 + 8);
+                            self.push(Op::abf(OpK::VObserve, a, b, 0));
+                        } else {
+                            let f = self.fault(self.n * self.w);
+                            self.push(Op::abf(OpK::VObserve, a, 0, f));
+                        }
                     }
                     _ => {
                         // through the iterator and back: v.into_iter()[pulls].collect()
@@ -248,6 +254,13 @@ impl<'a> G<'a> {
             }
         }
         let cbs = self.len * self.w * if a >= 2 { 2 } else { 1 };
+        if a == 0 && self.faulty && self.faults_left > 0 && self.r.chance(1, 4) {
+            // F8: the formatter sink fails at its k-th write
+            self.faults_left -= 1;
+            let b = self.r.range(1, 3 * cbs as u32 + 8);
+            self.push(Op::abf(OpK::Observe, a, b, 0));
+            return;
+        }
         let f = self.fault(cbs);
         self.push(Op::abf(OpK::Observe, a, 0, f));
     }
@@ -612,8 +625,14 @@ impl<'a> G<'a> {
                     }
                     8 => {
                         let a = self.r.below(4);
-                        let f = self.fault(nm * nm);
-                        self.push(Op::abf(OpK::MObserve, a, 0, f));
+                        if (a == 0 || a == 3) && self.faulty && self.faults_left > 0 && self.r.chance(1, 3) {
+                            self.faults_left -= 1;
+                            let b = self.r.range(1, 3 * (nm * nm) as u32 + 8);
+                            self.push(Op::abf(OpK::MObserve, a, b, 0));
+                        } else {
+                            let f = self.fault(nm * nm);
+                            self.push(Op::abf(OpK::MObserve, a, 0, f));
+                        }
                     }
                     9 => {
                         let a = self.r.below(2);
